@@ -53,18 +53,22 @@ void x__ZdlPvm(P p, uint64_t n) { free(p); }
 P x___cxa_allocate_exception(uint64_t n) { P p = malloc(n); __vf_assume_nonnull(p); return p; }
 void x___cxa_free_exception(P p) { free(p); }
 /* ---- exceptions: pending flag (translator tests it after every call that may unwind) */
-void x___cxa_throw(P o, P ti, P d) { __vf_exc_pending = 1; __vf_exc_ptr = o; exc_ti = ti; }
-P x___cxa_begin_catch(P e) { __vf_exc_pending = 0; if (ncaught >= 4) VF_FAIL("catch depth"); caught[ncaught] = e; caught_ti[ncaught] = exc_ti; ++ncaught; return e; }
+int __vf_uncaught;   /* exceptions thrown and not yet caught (std::uncaught_exceptions): cleanups during unwinding see > 0 */
+void x___cxa_throw(P o, P ti, P d) { __vf_exc_pending = 1; __vf_exc_ptr = o; exc_ti = ti; ++__vf_uncaught; }
+uint32_t x__ZSt19uncaught_exceptionsv(void) { return (uint32_t)__vf_uncaught; }
+uint8_t x__ZSt18uncaught_exceptionv(void) { return __vf_uncaught > 0; }
+P x___cxa_begin_catch(P e) { __vf_exc_pending = 0; if (__vf_uncaught > 0) --__vf_uncaught; if (ncaught >= 4) VF_FAIL("catch depth"); caught[ncaught] = e; caught_ti[ncaught] = exc_ti; ++ncaught; return e; }
 void x___cxa_end_catch(void) { if (ncaught <= 0) VF_FAIL("end_catch"); --ncaught; }
-void x___cxa_rethrow(void) { if (ncaught <= 0) VF_FAIL("rethrow"); __vf_exc_pending = 1; __vf_exc_ptr = caught[ncaught-1]; exc_ti = caught_ti[ncaught-1]; }
+void x___cxa_rethrow(void) { if (ncaught <= 0) VF_FAIL("rethrow"); ++__vf_uncaught; __vf_exc_pending = 1; __vf_exc_ptr = caught[ncaught-1]; exc_ti = caught_ti[ncaught-1]; }
 P x___cxa_get_exception_ptr(P e) { return e; }
 /* std::current_exception() as used by default_reporter ("is an exception in flight?"): the handle of the innermost caught exception, null if none */
 void x__ZSt17current_exceptionv(P r) { *(P*)r = ncaught > 0 ? caught[ncaught - 1] : 0; }
 void x__ZNSt15__exception_ptr13exception_ptr10_M_releaseEv(P a0) {}
 void x__ZNSt15__exception_ptr13exception_ptr9_M_addrefEv(P a0) {}
-uint32_t x___cxa_guard_acquire(P g) { return *g == 0; }
-void x___cxa_guard_release(P g) { *g = 1; }
-void x___cxa_guard_abort(P g) { }
+int __vf_guard_depth;     /* inside a thread-safe function-local static initialisation (between guard_acquire and guard_release) */
+uint32_t x___cxa_guard_acquire(P g) { if (*g == 0) { ++__vf_guard_depth; return 1; } return 0; }
+void x___cxa_guard_release(P g) { *g = 1; --__vf_guard_depth; }
+void x___cxa_guard_abort(P g) { --__vf_guard_depth; }
 uint32_t x___cxa_atexit(P f, P a, P d) { return 0; }
 void x__ZSt9terminatev(void) { VF_FAIL("std::terminate"); }
 void x_abort(void) { VF_FAIL("abort"); }
@@ -97,20 +101,31 @@ void x__ZNSt9exceptionD1Ev(P a0) {}
 void x__ZNSt9exceptionD0Ev(P a0) { free(a0); }
 static unsigned char std_exception_what[] = "std::exception";
 P x__ZNKSt9exception4whatEv(P a0) { return std_exception_what; }
-/* ---- the one global recursive mutex */
-void x__ZNSt15recursive_mutexC2Ev(P a0) {}
-void x__ZNSt15recursive_mutex6unlockEv(P a0) { if (__vf_lock_depth <= 0) VF_FAIL("unlock of unlocked mutex"); --__vf_lock_depth; }
+/* ---- the one global recursive mutex.  "The" mutex is the first one ever locked (harnesses take the lock once up front);
+ * any other mutex object is balanced separately and never counts as holding the global lock.  Its construction must
+ * happen inside a thread-safe static initialisation (first use from several threads at once). */
+static P __vf_the_mutex; static int __vf_other_depth;
+void x__ZNSt15recursive_mutexC2Ev(P a0) { VF_ASSERT(__vf_guard_depth > 0, "VA:C12.global_lock_constructed_outside_a_thread_safe_static_initialisation"); }
 #ifdef VF_SCHED
 /* schedule points: the harness' verif_on_acquire() runs whenever the mutex is about to be taken at depth 0 (C12/sched.cpp) */
 void f_verif_on_acquire(void);
-uint32_t x_pthread_mutex_lock(P m) { if (__vf_lock_depth == 0) f_verif_on_acquire(); ++__vf_lock_depth; return 0; }
-void x__ZNSt15recursive_mutex4lockEv(P a0) { if (__vf_lock_depth == 0) f_verif_on_acquire(); ++__vf_lock_depth; }
+#define VF_ACQ() do { if (__vf_lock_depth == 0) f_verif_on_acquire(); } while (0)
 #else
-void x__ZNSt15recursive_mutex4lockEv(P a0) { ++__vf_lock_depth; }
-uint32_t x_pthread_mutex_lock(P m) { ++__vf_lock_depth; return 0; }
+#define VF_ACQ() do { } while (0)
 #endif
-uint32_t x_pthread_mutex_unlock(P m) { if (__vf_lock_depth <= 0) VF_FAIL("unlock of unlocked mutex"); --__vf_lock_depth; return 0; }
+static void vf_lock(P m) { if (!__vf_the_mutex) __vf_the_mutex = m; if (m != __vf_the_mutex) { ++__vf_other_depth; return; } VF_ACQ(); ++__vf_lock_depth; }
+static void vf_unlock(P m)
+{
+  if (m != __vf_the_mutex) { if (__vf_other_depth <= 0) VF_FAIL("unlock of unlocked mutex"); --__vf_other_depth; return; }
+  if (__vf_lock_depth <= 0) VF_FAIL("unlock of unlocked mutex");
+  --__vf_lock_depth;
+}
+void x__ZNSt15recursive_mutex4lockEv(P a0) { vf_lock(a0); }
+void x__ZNSt15recursive_mutex6unlockEv(P a0) { vf_unlock(a0); }
+uint32_t x_pthread_mutex_lock(P m) { vf_lock(m); return 0; }
+uint32_t x_pthread_mutex_unlock(P m) { vf_unlock(m); return 0; }
 uint32_t x___pthread_key_create(P a, P b) { return 0; }
+uint32_t x___cxa_thread_atexit(P f, P obj, P dso) { return 0; }   /* thread-exit destructors never run inside a harness */
 
 #include "strings.inc"
 
@@ -153,6 +168,19 @@ void x__ZNSt7__cxx1111basic_regexIcNS_12regex_traitsIcEEED2Ev(P a0) {}
 uint8_t x__ZSt12regex_searchIPKccNSt7__cxx1112regex_traitsIcEEEbT_S5_RKNS2_11basic_regexIT0_T1_EENSt15regex_constants15match_flag_typeE(P b, P e, P re, uint32_t fl) {
   if (b == 0) VF_FAIL("regex_search on a null subject");
   rx_asked++; rx_len = (uint32_t)(e - b);
+#ifdef __CPROVER__
+  rx_verdict = nondet_u8() & 1;
+#else
+  rx_verdict = 1;
+#endif
+  return (uint8_t)rx_verdict;
+}
+/* the C-string overload: the searched range runs to the first NUL byte */
+uint8_t x__ZSt12regex_searchIcNSt7__cxx1112regex_traitsIcEEEbPKT_RKNS0_11basic_regexIS3_T0_EENSt15regex_constants15match_flag_typeE(P s, P re, uint32_t fl) {
+  if (s == 0) VF_FAIL("regex_search on a null subject");
+  uint32_t n = 0;
+  while (n < 64 && s[n] != 0) ++n;
+  rx_asked++; rx_len = n;
 #ifdef __CPROVER__
   rx_verdict = nondet_u8() & 1;
 #else
